@@ -240,16 +240,16 @@ Definition context_list (gs : list its) (k : Z) : list (its * its) := map (fun g
 
 (** ** ITSConstruction.ITSGraph(G, H, ignore_aromaticity, balance_its) — the two options that reach get_rc
     (C01 owns the construction; this copy only varies the base choice and _compute_standard_order) *)
-Definition std_of (ia : bool) (oG oH : Z) : Z :=
+Definition std_ab (ia : bool) (oG oH : Z) : Z :=
   if ia && (Z.abs (oG - oH) <? 2) then 0 else oG - oH.
-Definition its_construct_o (ia bal : bool) (G H : mgraph) : its :=
+Definition its_construct_ab (ia bal : bool) (G H : mgraph) : its :=
   let gb := if bal then (length (gnodes G) <=? length (gnodes H))%nat else base_is_G G H in
   let base := if gb then G else H in
   let other := if gb then H else G in
   let ns := gnodes base ++ filter (fun p => negb (has_node base (fst p))) (gnodes other) in
   LG (map (fun p => (fst p, its_node G H (fst p) (g_amap (snd p)))) ns)
-     (map (fun e => let '(u, v, o) := e in (u, v, IE o (order_in H u v) (std_of ia o (order_in H u v)))) (gedges G)
-      ++ map (fun e => let '(u, v, o) := e in (u, v, IE 0 o (std_of ia 0 o))) (filter (absent_in G) (gedges H))).
+     (map (fun e => let '(u, v, o) := e in (u, v, IE o (order_in H u v) (std_ab ia o (order_in H u v)))) (gedges G)
+      ++ map (fun e => let '(u, v, o) := e in (u, v, IE 0 o (std_ab ia 0 o))) (filter (absent_in G) (gedges H))).
 (** standard_order is the difference, except that |difference| < 1 is zeroed *)
 Definition ia_consistent (g : its) : Prop :=
   forall u v x, In (u, v, x) (gedges g) -> e_std x = if Z.abs (e_G x - e_H x) <? 2 then 0 else e_G x - e_H x.
@@ -283,4 +283,4 @@ Definition run_lre (g : its) : tok :=
 Definition run_list (gs : list its) (k : Z) : tok :=
   tlist (fun p : its * its => L [tits (fst p); tits (snd p)]) (context_list gs k).
 (** ITSGraph with options, then the round-1 observable *)
-Definition run_pair_o (ia bal : bool) (G H : mgraph) : tok := run (its_construct_o ia bal G H).
+Definition run_pair_o (ia bal : bool) (G H : mgraph) : tok := run (its_construct_ab ia bal G H).
